@@ -15,7 +15,7 @@ from ..core import Check, Outcome, crash, fail
 from ..onto import model as M
 from .c15 import candidate_facts, gen_population
 
-PREFIX_CLASSES = ["Org", "Agent"]
+PREFIX_CLASSES = ["Org", "Agent", "Fellow"]
 
 
 def sweep():
@@ -165,10 +165,10 @@ class C14(Check):
                     # a source that stops holding its targets, which then die and are swept while it lives on
                     prefix += [["unlink", draw(st.integers(0, 7))], ["drop", draw(st.integers(0, 7))], ["gc"], ["sweep"]]
                 prefix += draw(st.sampled_from([[["drop_all"], ["sweep"]], [["drop_all"], ["sweep"]], [["drop_all"]], [["gc"], ["sweep"]], []]))
-            pop = gen_population(draw, max_orgs=3, max_agents=2, max_bosses=1)
+            pop = gen_population(draw, max_orgs=3, max_agents=2, max_bosses=1, allow_fellow=True)
             # creation order of the suffix population is shuffled relative to class order
             orgs = [i for i, p in enumerate(pop) if p["cls"] == "Org"]
-            employer = {i: draw(st.sampled_from(orgs)) for i, p in enumerate(pop) if p["cls"] == "Agent"}
+            employer = {i: draw(st.sampled_from(orgs)) for i, p in enumerate(pop) if p["cls"] in ("Agent", "Fellow")}
             cands = candidate_facts(pop, employer)
             idxs = draw(st.lists(st.integers(0, len(cands) - 1), min_size=1, max_size=6, unique=True))
             steps = []
